@@ -31,7 +31,7 @@ ASSUMPTIONS = ["uses the returned signal (no independent evaluator; that would b
                "no fault kind applies (no I/O, no clock inside add_signal); a raising callback is C16's subject"]
 PROBES = ["bounding_range_inside", "bounding_range_clipped_low", "bounding_range_clipped_high", "bounding_range_outside_below",
           "bounding_range_outside_above", "bounding_range_empty_or_reversed", "float32_frame_injection", "prior_noise",
-          "superposition_checked", "other_frames_alive", "integrate_f_profile_bounded", "estimates_not_read_before_injection", "callback_error_in_injection"]
+          "superposition_checked", "other_frames_alive", "integrate_f_profile_bounded", "estimates_not_read_before_injection", "callback_error_in_injection", "frame_took_part_in_cadence_injection"]
 
 BOUND_KINDS = ["none", "none", "inside", "inside", "clip_low", "clip_high", "below", "above", "empty", "reversed", "whole"]
 
@@ -58,6 +58,13 @@ def generate(rng, tier):
         if rng.random() < 0.12:
             # the injection dies part-way: a user callback raises on its k-th evaluation
             op["fault"] = {"which": rng.choice(["f_profile", "f_profile", "path", "t_profile"]), "at": rng.randint(1, 4)}
+            if rng.random() < 0.6:
+                op["sig"]["opts"] = dict(op["sig"]["opts"], doppler_smearing=True, smearing_subsamples=rng.choice([2, 5]))
+                if op["sig"]["path"]["kind"] == "array":
+                    op["sig"]["path"]["kind"] = "constant"
+        elif rng.random() < 0.08:
+            # the frame is, for this one injection, a member of a cadence (at a time offset from the cadence's start)
+            op["via_cadence"] = {"offset": rng.choice([200.0, 16.0, 3600.0]), "pos": rng.choice(["second", "second", "first"])}
             if rng.random() < 0.6:
                 op["sig"]["opts"] = dict(op["sig"]["opts"], doppler_smearing=True, smearing_subsamples=rng.choice([2, 5]))
                 if op["sig"]["path"]["kind"] == "array":
@@ -204,6 +211,34 @@ def execute(sc, ctx):
             ctx.hit("estimates_not_read_before_injection")
         before = [F.state_fields(f, with_noise=observe_before or k != op["fr"] % len(frames)) for k, f in enumerate(frames)]
         data_before = [np.array(f.data, copy=True) for f in frames]
+        if op.get("via_cadence"):
+            # the frame takes part in a cadence injection (evaluated at cadence-relative times: what lands in the frame is
+            # C16's subject).  Here: afterwards the frame's own axes and state are what they were, other frames are
+            # untouched, and later direct injections are judged like any other
+            import setigen as stg
+            vc = op["via_cadence"]
+            lead = stg.Frame(fchans=fr.fchans, tchans=fr.tchans, df=fr.df, dt=fr.dt, fch1=fr.fch1, ascending=fr.ascending,
+                             t_start=fr.t_start - vc["offset"], seed=1)
+            members = [lead, fr] if vc["pos"] == "second" else [fr, lead]
+            try:
+                stg.Cadence(members).add_signal(path, tp, fp, bpp, **kw)
+            except Exception as e:
+                ctx.violation("inject", "C06/cadence_inject/raises:%s" % type(e).__name__, repr(e))
+                return
+            ctx.event("cadence_inject", i, fr.data)
+            ctx.hit("frame_took_part_in_cadence_injection")
+            for k, f in enumerate(frames):
+                after = F.state_fields(f, with_noise="noise_mean" in before[k])
+                d = F.diff_fields(before[k], after)
+                if not ctx.check(not d, "state", "C06/state/changed_by_cadence_injection:%s" % ",".join(d),
+                                 lambda: "fields %s of frame %d changed" % (d, k)):
+                    return
+                if k != i and not ctx.check(np.array_equal(f.data, data_before[k]), "state", "C06/state/other_frame_data_changed",
+                                            "a cadence injection changed a frame that is not a member"):
+                    return
+            base[i] = np.array(fr.data, copy=True)
+            per_frame[i] = []
+            continue
         fpath, ftp, ffp = path, tp, fp
         if op.get("fault"):
             box = {"n": 0}
